@@ -187,6 +187,70 @@ func runScorch(c *core.Ctx, name string, wl sx.Workload, seed int64) (*outcome, 
 	return out, nil
 }
 
+// runDirectedMemMerge drives the schedule "several merge units of the persister's
+// in-memory merge are overtaken by a batch" (ScorchDisk: PTake over >= 4 unpersisted
+// segments, PMMWrite with several workers, IntroSegment of a delete + update, PMMIntro):
+// the deletions that arrived during the merge must land in the RIGHT new segment.
+func runDirectedMemMerge(c *core.Ctx, name string, seed int64) (*outcome, error) {
+	base := c.TempDir("c04d")
+	defer os.RemoveAll(base)
+	wl := sx.Workload{Name: name, Writers: 1, Safe: false, KVConfig: map[string]interface{}{"unsafe_batch": true,
+		"scorchPersisterOptions": map[string]interface{}{"NumPersisterWorkers": 3, "MaxSizeInMemoryMergePerWorker": 1}}}
+	r, err := sx.Start(filepath.Join(base, "idx"), wl, seed, 0)
+	if err != nil {
+		return nil, err
+	}
+	out := &outcome{Name: name}
+	read := func() {
+		r.Rec.Emit("ReadBegin", map[string]any{"c": 1})
+		docs, err := sx.SearchContent(r.Idx)
+		if err != nil {
+			r.Rec.Emit("ReadError", map[string]any{"c": 1, "err": err.Error()})
+			return
+		}
+		r.Rec.Emit("ReadEnd", map[string]any{"c": 1, "docs": docs})
+		out.Reads++
+	}
+	r.Quiesce(20 * time.Second)
+	r.SetHolds([]sx.HoldRule{
+		{Point: "persist.loop", Until: "IntroSegment", Count: 3, Timeout: 10 * time.Second, Prob: 1, Once: true},
+		{Point: "memmerge.beforeIntro", Until: "IntroSegment", Count: 1, Timeout: 10 * time.Second, Prob: 1, Once: true},
+	})
+	ids := []string{"a", "b", "c", "d"}
+	if seed%2 == 1 {
+		ids = []string{"d", "c", "b", "a"}
+	}
+	for _, id := range ids { // four unpersisted one-document segments
+		if _, err := r.Submit(sx.BatchSpec{W: 1, Puts: []string{id}, Dels: []string{}}); err != nil {
+			_ = r.Close()
+			return nil, err
+		}
+		read()
+	}
+	parked := r.WaitParked("memmerge.beforeIntro", 1, 10*time.Second)
+	// the overtaking batch: deletes a document of a later merge unit, rewrites another
+	if _, err := r.Submit(sx.BatchSpec{W: 1, Puts: []string{ids[3]}, Dels: []string{ids[2]}}); err != nil {
+		_ = r.Close()
+		return nil, err
+	}
+	read()
+	r.Quiesce(20 * time.Second)
+	read()
+	_ = r.ForceMerge()
+	r.Quiesce(20 * time.Second)
+	read()
+	r.SetHolds(nil)
+	if err := r.Close(); err != nil {
+		return nil, err
+	}
+	if parked {
+		c.AddExtra("directed_memmerge_runs_with_the_merge_overtaken", 1)
+	}
+	out.Records = records(r.Rec.Events())
+	out.Scorch = sx.ScorchRecords(r.Rec.Events())
+	return out, nil
+}
+
 // runScheduled executes one TLC-generated schedule; the marker document is added
 // to every batch, a search is issued after every step and a low-level reader is
 // held and re-read across steps.
@@ -332,6 +396,13 @@ func run(c *core.Ctx) error {
 			outs = append(outs, o)
 		}
 		c.Logf("%d TLC-generated schedules executed (safe=%v)", len(scheds), safe)
+	}
+	for k := 0; k < c.Pick(3, 8); k++ {
+		o, err := runDirectedMemMerge(c, fmt.Sprintf("directed-memmerge-units-overtaken-%d", k), c.Seed*10+int64(k))
+		if err != nil {
+			return err
+		}
+		outs = append(outs, o)
 	}
 	conformance(c, outs)
 	// upsidedown: KV snapshot + separately cached docCount (Upsidedown's two-step
